@@ -346,6 +346,10 @@ func campaignC16(p *Parser, req *Request, resp *Response) {
 				viol(n, "unexhausted-differs", "value differs from the reference run", map[string]any{"got": r.Value, "want": R.Value})
 				continue
 			}
+			if r.Escaped != R.Escaped {
+				viol(n, "unexhausted-differs", fmt.Sprintf("what reaches the caller as a panic differs from the reference run: %q vs %q", r.Escaped, R.Escaped), nil)
+				continue
+			}
 			if ok, _ := sameStrings(errMsgs(r), refErrs); !ok {
 				viol(n, "unexhausted-differs", "errors differ from the reference run", map[string]any{"got": errMsgs(r), "want": refErrs})
 				continue
